@@ -939,6 +939,22 @@ def check_json_family(run, prop, replay=None):
         kind = c[:1]
         if kind not in ("E", "U") or im.startswith("SKIP"):
             continue
+        if c.startswith("EK "):
+            # an array of items that are a oneOf defined in place: not modelled; the encoding is judged by kin-openapi's
+            # validator (support for the search, not a theorem), the round trip against the sent value
+            n_eval += 1
+            kinds["oneof-items"] = kinds.get("oneof-items", 0) + 1
+            ikv = parse_kv(im)
+            f = c.split(" ")
+            ctx = [l for l in heads.get(f[1], []) if l.startswith("D ")]
+            if prop == "C07" and ikv.get("kin", "ok") not in ("ok", "unavailable"):
+                why = ikv["kin"]
+                if why.startswith("no:"):
+                    why = bytes.fromhex(why[3:]).decode("utf8", "replace")[:200] if why[3:] != "-" else ""
+                propm.append((i, c, im, mo, ctx, "encoded JSON does not validate against the schema (kin-openapi: %s)" % why))
+            elif prop == "C06" and canon_dump(ikv.get("back")) != canon_dump(f[3]):
+                propm.append((i, c, im, mo, ctx, "decoding the encoding of an array of oneOf items does not return the value"))
+            continue
         if c.startswith("EO ") or c.startswith("UO "):
             # oneOf types (Model/OneOf.v): the encoding, the value decoded from it, and the decoder's verdict on documents
             n_eval += 1
